@@ -656,6 +656,10 @@ def judge(records, driver, workdir, tag):
             v["first"] = {"why": why, "ops": [(op, impl) for op, impl in lines], "model": [m[2:] for m in ans]}
         if ok and v["accepted"] is None:
             v["accepted"] = {"candidate": ci, "end": ans[-1][2:]}
+        if ok and "told=1" in ans[-1]:
+            # some order the transcript admits ends with the client told (a `stopped` event after its last
+            # continue/step request): the statement of c17_adapter_told_partial holds on this round
+            v["any_told"] = True
     return verdict
 
 
@@ -755,7 +759,11 @@ def run(binary, driver, workdir, seed, sessions, rounds, budget_s, scripts=None)
         hits = [t for t in toks if t[0] == "hit"]
         if parked_end and hits:
             lh = hits[-1]
-            if decisions.get(lh[1]) != "emit":
+            # The statement judged is the one the theorem states (ASys.told): a runtime parked for good has been
+            # announced by a `stopped` event after the client's last continue/step request.  That event may belong
+            # to an earlier Pause stop of the same kind examined late (the event carries reason and thread only;
+            # the client asks for the location afterwards), so a dropped LAST stop alone is not a failure.
+            if decisions.get(lh[1]) != "emit" and not v.get("any_told"):
                 # Known residual window (c17_adapter_counterexample_residual): the unannounced stop is a Pause
                 # stop dropped for "pause/entry without pause_expected", and between the accepted `pause`
                 # request and that drop the coordinator examined a Breakpoint/Step stop of an earlier halt
